@@ -263,3 +263,38 @@ func init() {
 		Outside: []string{"more predefined entries than the bound (the skip loop is unwound once per entry)"},
 	})
 }
+
+func c0809Insts(k int64) []Inst {
+	var out []Inst
+	for first := int64(0); first <= 6; first++ {
+		for second := int64(0); second <= 7; second++ {
+			out = append(out, Inst{Pkg: "gateway", Fn: "VH_C08_hist", Args: []int64{k, first, second}, MaxPaths: 200000})
+		}
+	}
+	return out
+}
+
+var c0809Bounds = map[string]string{
+	"histories":     "fresh session, k events (quick k = 3, thorough k = 4): first event fixed per instance, the others chosen symbolically among CONNECT (will flag, clean session, keep-alive incl. 0, client ID symbolic), AUTH with a 5-byte method (PLAIN reachable) and 3 or 4 symbolic data bytes, AUTH with a 1-byte method, WILLTOPIC (2 bytes / empty), WILLMSG (1 byte), broker CONNACK (return code symbolic) when a CONNECT is pending",
+	"configuration": "auth on/off, gateway credentials absent/present (1 symbolic byte each)",
+	"oracle":        "reference state machine of the connect exchange + reference SASL PLAIN splitter + independent MQTT CONNECT parser",
+}
+
+func init() {
+	reg(&Spec{
+		ID: "C08", Pkgs: []string{"gateway", "util"},
+		Quick: func() []Inst { return c0809Insts(3) }, Thor: func() []Inst { return c0809Insts(4) },
+		Asserts: []string{"C08.unknown_method_not_supported", "C08.connect_needs_plain_auth", "C08.connect_carries_auth_credentials", "C08.connect_carries_gateway_credentials"},
+		Reach:   []string{"C08.unknown_method"},
+		Bounds:  c0809Bounds, Outside: []string{"longer histories", "AUTH data longer than 4 bytes"},
+	})
+	reg(&Spec{
+		ID: "C09", Pkgs: []string{"gateway", "util"},
+		Quick: func() []Inst { return c0809Insts(3) }, Thor: func() []Inst { return c0809Insts(4) },
+		Asserts: []string{"C09.zero_keepalive_not_supported", "C09.willtopicreq_only_with_will_flag", "C09.willtopicreq_after_auth", "C09.will_flag_gets_willtopicreq",
+			"C09.willmsgreq_only_after_willtopic", "C09.willtopic_gets_willmsgreq", "C09.at_most_one_connect", "C09.will_connect_only_after_willmsg", "C09.connect_carries_will",
+			"C09.no_will_without_flag", "C09.willmsg_gets_connect", "C09.no_will_requests_without_flag", "C09.connack_mirrors_broker", "C09.connect_needs_client_connect"},
+		Reach:  []string{"C09.zero_keepalive", "C09.willtopicreq", "C09.willmsgreq", "C09.connect_sent", "C09.broker_connack"},
+		Bounds: c0809Bounds, Outside: []string{"longer histories"},
+	})
+}
